@@ -221,6 +221,32 @@ def census_part(F, C, R, rep, tag=''):
     rep.floor('R14.9', 'indexing sites examined', len(isites), 90)
     rep.extra[tag + 'indexing_sites'] = {'total': len(isites), 'auto_discharged': autoc, 'table_sites': sum(len(v) for v in perk.values())}
 
+    # ---- std APIs with index / range / radix preconditions
+    from .census import std_precondition_sites
+    ssites = std_precondition_sites(C, R)
+    pers = {}
+    autos = {}
+    for fk, api, b, c, auto in ssites:
+        if auto:
+            autos[auto] = autos.get(auto, 0) + 1
+        else:
+            pers.setdefault((fk, api), []).append(c)
+    for cls, n in sorted(autos.items()):
+        rep.ok('R14.10', tag + 'class %s' % cls, '%d call(s) discharged automatically' % n)
+    for (fk, api), lst in sorted(pers.items()):
+        ent = None
+        for rx, k, cnt, reason in T.STDPRE_TABLE:
+            if k == api and re.search(rx, fk):
+                ent = (cnt, reason)
+                break
+        if ent and len(lst) <= ent[0]:
+            rep.ok('R14.10', tag + '%s %s x%d' % (fk, api, len(lst)), 'reviewed: ' + ent[1])
+        elif ent:
+            _viol_once(rep, 'R14.10', '%s|%s|count' % (fk, api), '%s now calls %s %d time(s), %d were reviewed: the call panics when its position / range / radix argument is out of range' % (fk, api, len(lst), ent[0]), lst[-1].loc())
+        else:
+            _viol_once(rep, 'R14.10', '%s|%s' % (fk, api), 'unreviewed call of %s in %s (x%d), reachable from the pure language: it panics on an out-of-range position, an inverted or out-of-range range, a non-boundary string position, a zero size or a radix above 36' % (api, fk, len(lst)), lst[0].loc())
+    rep.floor('R14.10', 'std precondition call sites examined', len(ssites), 50)
+
 
 def run(F, rep, tier):
     C = Census(F)
@@ -238,6 +264,10 @@ def run(F, rep, tier):
     rep.rule('R14.9', 'indexing census: every v[i] / v[a..b] / s[a..b] / map[k] in the closure (MIR bounds checks and Index::index / index_mut calls on Vec, '
              'slices, str and HashMap) has an index produced by one of the normalisers (pythonic_index*, cyclic_index, pythonic_slice_obj, '
              'safe_index_inner), is a full range, or is in the reviewed table with an exact count per function and kind')
+    rep.rule('R14.10', 'std APIs with preconditions: every Vec::remove / insert / swap_remove / drain / split_off, slice::swap / split_at / chunks / '
+             'windows, String::remove / insert / drain / truncate / replace_range, str::split_at, step_by, char::to_digit / from_digit / is_digit, '
+             'integer abs / pow / clamp call in the closure is discharged by a class (full range, constant radix 2..=36, constant non-zero size, '
+             'insert at 0, constant clamp bounds) or listed in the reviewed table with an exact count')
     rep.rule('R14.2', 'arithmetic census: each overflow / division / remainder / negation assert in the closure is discharged by a class '
              '(unit-step counter, non-zero constant divisor, dominating comparison with the right polarity, exit-count decrement) or by '
              'the reviewed table with an exact per-function count')
